@@ -11,11 +11,11 @@ import os
 from cklmon import core
 from cklmon.core import observe
 
-RULE = ("alphabet of 13 commands (define, assign, read, define+call a function reading a session variable, failing "
+RULE = ("alphabet of 15 commands (define, assign, read, define+call a function reading a session variable, failing "
         "expression, multi-statement call failing midway, syntax error, require of a good stateful module, of a missing, "
         "a broken-at-runtime, a broken-syntax and a circular module, loop aborted by an error after updating an "
-        "accumulator); all histories of length <= 3 (quick) / <= 4 (thorough) on one interpreter, all histories <= 2 / "
-        "<= 3 over two interleaved interpreters (26 symbols), all histories <= 2 with one caller-supplied environment passed "
+        "accumulator, require of a module whose file the host writes only later, that host action); all histories of length <= 3 (quick) / <= 4 (thorough) on one interpreter, all histories <= 2 / "
+        "<= 3 over two interleaved interpreters (30 symbols), all histories <= 2 with one caller-supplied environment passed "
         "to every call, random histories to length 30, random histories fed line by line (some commands broken over two "
         "lines) to the interactive host ckl.repl in a child process; each followed by a fixed "
         "probe sequence; a case is one history; non-trivial = it contains a failing command followed by another command; "
@@ -49,8 +49,13 @@ COMMANDS = [
     ("req-broken-syn", "require broken_syn"),
     ("req-cyclic", "require cyc_a"),
     ("loop-abort", "def acc = 0; for i in [1, 2, 3] do acc += i; if i == 2 then error 'E' end"),
+    # a module that does not exist until the host writes its file between two calls: a failed require must not be
+    # remembered once its cause is gone
+    ("req-late", "require late_mod; late_mod->v"),
+    ("host-writes-late", "#host:write-late"),
 ]
-PROBES = ["x", "a1", "b1", "c1", "acc", "f(1)", "good->get()", "good->dbl(4)", "z", "never", "a", "b", "string(LOADLOG)"]
+LATE_SRC = "append(LOADLOG, 'late_mod');\ndef v = 77;\n"
+PROBES = ["x", "a1", "b1", "c1", "acc", "f(1)", "good->get()", "good->dbl(4)", "z", "never", "a", "b", "late_mod->v", "string(LOADLOG)"]
 ERR = ("error", "'ERROR'")
 
 
@@ -67,6 +72,8 @@ class Model:
         self.good = None     # None | counter
         self.helper = False
         self.loadlog = []
+        self.late_file = False
+        self.late_loaded = False
 
     def load_helper(self):
         if not self.helper and self.nested:
@@ -123,6 +130,17 @@ class Model:
         if name == "loop-abort":
             b["acc"] = 3
             return ("error", "'E'")
+        if name == "host-writes-late":
+            self.late_file = True
+            return ("value", "host")
+        if name == "req-late":
+            if not self.late_loaded:
+                if not self.late_file:
+                    return ERR
+                self.late_loaded = True
+                self.loadlog.append("late_mod")
+            b["late_mod"] = True
+            return ("value", "77")
         raise ValueError(name)
 
     def probe(self, p):
@@ -139,6 +157,8 @@ class Model:
             return ("value", str(self.good)) if "good" in b else ERR
         if p == "good->dbl(4)":
             return ("value", str(4 * self.factor)) if "good" in b else ERR
+        if p == "late_mod->v":
+            return ("value", "77") if "late_mod" in b else ERR
         if p == "string(LOADLOG)":
             return ("value", "'[" + ", ".join("\\'%s\\'" % m for m in self.loadlog) + "]'")
         raise ValueError(p)
@@ -151,12 +171,20 @@ class Session:
         # caller_env: the host passes one environment of its own to every interpret call
         self.caller_env = ckl.functions.Environment() if caller_env else None
         self.it, self.out = core.new_interpreter(secure=True, legacy=False)
+        self.moddir = moddir
+        late = os.path.join(moddir, "late_mod.ckl")
+        if os.path.exists(late):
+            os.remove(late)
         mp = V.ValueList()
         mp.addItem(V.ValueString(moddir))
         self.it.base_environment.put("checkerlang_module_path", mp)
         self.it.base_environment.put("LOADLOG", V.ValueList())
 
     def call(self, src):
+        if src == "#host:write-late":
+            with open(os.path.join(self.moddir, "late_mod.ckl"), "w") as f:
+                f.write(LATE_SRC)
+            return ("value", "host")
         if self.caller_env is not None:
             o = observe(lambda: self.it.interpret(src, "session", self.caller_env), 600000)
         else:
@@ -183,7 +211,7 @@ def write_modules(moddir, variant=0):
 
 def residue_kind(name):
     return {"req-missing": "failed-require", "req-broken-rt": "failed-require", "req-broken-syn": "failed-require",
-            "req-cyclic": "circular-require", "midway": "partial-call", "loop-abort": "partial-call", "fail": "failed-expression",
+            "req-cyclic": "circular-require", "req-late": "failed-require", "midway": "partial-call", "loop-abort": "partial-call", "fail": "failed-expression",
             "syntax": "syntax-error"}.get(name, "none")
 
 
@@ -385,7 +413,7 @@ def run_shard(spec, ctx):
                 f.write(re.sub(r"append\(LOADLOG, '(\w+)'\)", r"println('LOAD \1')", src))
         for i in range(spec["n"]):
             L = r.randint(1, 4) if i % 3 == 0 else r.randint(5, 25)
-            run_repl_history(ctx, rdir, [r.randrange(n) for _ in range(L)], r)
+            run_repl_history(ctx, rdir, [r.randrange(13) for _ in range(L)], r)     # (host actions are not REPL lines)
     else:
         r = ctx.rng
         for _ in range(spec["n"]):
@@ -405,8 +433,8 @@ def finalize(merged, tier):
     two_done = sum(ex.get("two_done", 0) for spec, ex in docs)
     two_total = max([ex.get("two_total", 0) for spec, ex in docs] or [0])
     extra = {"exhaustive": one_done == one_total and two_done == two_total and one_total > 0,
-             "exhaustive_space": "one interpreter: all %d histories of length <= %d over 13 commands; two interleaved: all %d "
-                                 "histories of length <= %d over 26 symbols" % (one_total, 3 if tier == "quick" else 4, two_total, 2 if tier == "quick" else 3)}
+             "exhaustive_space": "one interpreter: all %d histories of length <= %d over %d commands; two interleaved: all %d "
+                                 "histories of length <= %d over %d symbols" % (one_total, 3 if tier == "quick" else 4, len(COMMANDS), two_total, 2 if tier == "quick" else 3, 2 * len(COMMANDS))}
     if not extra["exhaustive"]:
         reasons.append("history enumeration incomplete (%d/%d, %d/%d)" % (one_done, one_total, two_done, two_total))
     if c.get("probes", 0) == 0 or c.get("random_histories", 0) == 0:
